@@ -35,7 +35,7 @@ MANIFEST = {
 
 PROPS = {
     "C03": ["NotAhead", "BelongsToBlock", "AppendOnlySuccessor", "EqualsHardcoded",
-            "DisputeCommitsHonest", "HonestNotBanned", "LiarsBanned"],
+            "DisputeCommitsHonest", "HonestNotBanned", "HonestNotBannedInFetch", "LiarsBanned"],
 }
 
 CODE_VERSION = json.load(open(os.path.join(SPEC, "code_version.json")))
@@ -74,8 +74,10 @@ def core_scenarios(maxh):
         ([H, ("CP", 2), ("CX", 4)], maxh, 0, 0),
         ([H, ("HC", 5 if maxh >= 5 else 3), ("FO", 5 if maxh >= 5 else 3)], maxh, 3, 0),  # at-tip disputes
         ([H, ("OM", 2), ("NH", 2)], 3, 1, 0),   # two provable liars, one height
-        ([T, T, ("OM", 1)], 1, 0, 0),           # below one interval, no honest peer guaranteed
-        ([H, H, T], maxh, 0, 0),                # no liar at all (reorganisations only)
+        ([H, ("OM", 1), T], 1, 0, 0),           # chain shorter than one interval
+        ([H, H, H], maxh, 0, 0),                # no liar at all (reorganisations only)
+        ([H, ("OM", 4), ("NH", 5)], 5, 3, 0),   # two disputed heights in one getcfheaders window
+        ([H, ("OM", 3), H], 4, 0, 0),           # deep reorganisation below the disputed interval
     ]
     return S
 
@@ -103,9 +105,11 @@ def sample_scenarios(rng, n, maxh, np_):
 
 
 CONFIGS = {
-    "quick": dict(consts=dict(NP=3, CPI=2, MaxH=5, MaxSteps=9, MaxReorgs=1, MaxRb=2, MaxExt=1, MaxExtN=2),
-                  sampled=6, walks=0),
-    "thorough": dict(consts=dict(NP=3, CPI=2, MaxH=7, MaxSteps=12, MaxReorgs=2, MaxRb=3, MaxExt=2, MaxExtN=2),
+    "quick": dict(consts=dict(NP=3, CPI=2, MaxH=5, MaxSteps=9, MaxReorgs=1, MaxRb=3, MaxExt=1, MaxExtN=2,
+                              RbDepths="{1, 3}", EnvFree=False),
+                  sampled=3, walks=0),
+    "thorough": dict(consts=dict(NP=3, CPI=2, MaxH=7, MaxSteps=12, MaxReorgs=2, MaxRb=3, MaxExt=2, MaxExtN=2,
+                                 RbDepths="{1, 2, 3}", EnvFree=True),
                      sampled=40, walks=3000),
 }
 
